@@ -24,6 +24,7 @@ Modelled rather than verified, and why it is harmless here:
   writes to a time feature other than the one the speed-table model writes to (`"time"`, fixed in
   `speed_traversal_model.rs`) is outside the route-level theorems.
 -/
+import Compass.Model.Search
 import Compass.Gen.Decisions
 import Compass.Proofs.Num
 import Compass.Model.Instance
@@ -1170,6 +1171,12 @@ theorem src_heading_wrap (src dst : Int × Option Int) :
        else if heading_wrap_low.int angle (-180) = some true then angle + 360 else angle) := by
   rcases src with ⟨a, _ | d⟩ <;> simp [bearing, headingWrap, heading_wrap_high, heading_wrap_low, Rel.int] <;>
     split_ifs <;> omega
+
+/-- shared by every search property: the label test of `run_a_star`'s relaxation (`improves`) is the
+source's `tentative_gscore < existing_gscore`; with `<=` an equal-cost arrival re-labels an expanded vertex -/
+theorem src_relax_improves {α : Type} [Field α] [LinearOrder α] [IsStrictOrderedRing α] [Lit α] [LawfulLit α] (tent ex : α) :
+    some (improves tent (some ex)) = relax_improves.num tent ex := by
+  simp [improves, relax_improves, Rel.num]
 
 end C03
 end Compass
